@@ -77,6 +77,18 @@ func goldilocksMachine() *machine {
 		{name: "S.Neg", recv: "sc", usesRecv: true, apply: func(r any, _ []any, _ []int) (any, string) { S(r).Neg(); return r, "" }},
 		{name: "S.Red", recv: "sc", usesRecv: true, apply: func(r any, _ []any, _ []int) (any, string) { S(r).Red(); return r, "" }},
 		{name: "S.IsZero", recv: "sc", usesRecv: true, apply: func(r any, _ []any, _ []int) (any, string) { return r, b2s(S(r).IsZero()) }},
+		// decoding byte strings of EVERY length (shorter and longer than a scalar) into a used object
+		{name: "S.FromBytes/any-length", recv: "sc", args: []string{"sc"}, nints: 1, intMax: 116, apply: func(r any, a []any, n []int) (any, string) {
+			src := *S(a[0])
+			src.Red() // the model of an object is its reduced value: the bytes fed must be a function of that
+			lens := []int{0, 1, 7, 8, 9, 31, 32, 33, 47, 48, 49, 50, 51, 52, 53, 54, 55, 56, 57, 58, 63, 64, 65, 111, 112, 113, 114, 115}
+			buf := make([]byte, lens[n[0]%len(lens)])
+			for i := range buf {
+				buf[i] = src[i%len(src)] ^ byte(i/len(src))
+			}
+			S(r).FromBytes(buf)
+			return r, ""
+		}},
 	}
 	return m
 }
